@@ -12,14 +12,17 @@ ENV = {'DFT_RE': DFT_RE, 'DFT_IM': DFT_IM}
 N = 'assumed: the plan returns the n-point transform of its n-sample input (FFT core)'
 
 F = 'lib/fft/fft.cpp'
-DFTPOST = [('length', 'result.len == x.len'),
+# the assumed transforms are linear maps: the zero sequence maps to the zero sequence
+ZERO = ('zero_in_zero_out', 'Implies(forall(lambda k: Implies(And(0 <= k, k < x.len), And(x[k].re == 0, x[k].im == 0))), '
+                            'forall(lambda k: Implies(And(0 <= k, k < x.len), And(result[k].re == 0, result[k].im == 0))))')
+DFTPOST = [('length', 'result.len == x.len'), ZERO,
            ('is_dft', 'And(same(re_data(result), DFT_RE(re_data(x), im_data(x), x.len)), same(im_data(result), DFT_IM(re_data(x), im_data(x), x.len)))')]
 fn('dsplib::fft', F, sig='(const dsplib::arr_cmplx &)', key='fft(arr_cmplx)', serves=['C01'], trusted=True, pure=True, extra_env=ENV,
    requires=[('nonempty', 'x.len >= 1')], ensures=DFTPOST, notes=N)
 fn('dsplib::fft', F, sig='(const dsplib::arr_real &)', key='fft(arr_real)', serves=['C01'], trusted=True, pure=True, extra_env=ENV,
    requires=[('nonempty', 'x.len >= 1')], ensures=[('length', 'result.len == x.len')], notes=N)
 fn('dsplib::ifft', 'lib/fft/ifft.cpp', sig='(const dsplib::arr_cmplx &)', key='ifft(arr_cmplx)', serves=['C02'], trusted=True, pure=True,
-   requires=[('nonempty', 'x.len >= 1')], ensures=[('length', 'result.len == x.len')], notes=N)
+   requires=[('nonempty', 'x.len >= 1')], ensures=[('length', 'result.len == x.len'), ZERO], notes=N)
 fn('dsplib::FftPlan::FftPlan', F, serves=['C01'], trusted=True, assigns=['this'], requires=[('size', 'n >= 1')], notes=N)
 fn('dsplib::FftPlanR::FftPlanR', F, serves=['C01'], trusted=True, assigns=['this'], requires=[('size', 'n >= 1')], notes=N)
 for cls in ('FftPlan', 'FftPlanR'):
